@@ -2,6 +2,7 @@
 import collections
 import os
 import shutil
+import zlib
 
 from hypothesis import strategies as st
 
@@ -20,6 +21,7 @@ RULE = ('Hypothesis-drawn (script with 1-16 asserts, spec accepting the original
         'W_i has an accepting V that ended before the write began; there is an A with '
         'candidate W_i and base W_(i-1) (the original for i = 1); the file at exit '
         'tokenises to W_n; every V candidate was executed by the command (its log).  '
+        'In half of the runs the output file is read at every traced line of every write: it must hold the previous or the new element of the chain, nothing else.  '
         'Non-trivial: a run with >= 2 writes and >= 1 success that was computed but '
         'not adopted; distinct = distinct case.')
 ASSUMPTIONS = [
@@ -107,7 +109,8 @@ def cases(draw):
 
 def run_case(case, acc, wd):
     r = e2e.run_ddsmt(wd, case['text'], case['spec'], case['opts'], mode='launcher',
-                      plan=dict(trace=True, delay=case.get('delay'), stop_on_repeat=True, max_accepts=400),
+                      plan=dict(trace=True, delay=case.get('delay'), stop_on_repeat=True, max_accepts=400,
+                                observe_file=zlib.crc32(case['text'].encode('utf-8', 'replace')) % 2 == 0),
                       wall_limit=120)
     if r.timed_out or r.after is None:
         acc.skip('run-wall-limit-or-crash')
@@ -120,6 +123,11 @@ def run_case(case, acc, wd):
         acc.count('stopped-at-repeated-content(see C03)')
     elif r.after.get('rc') != 0:
         acc.count('run-failed(see C04)')
+    for t in (r.after.get('torn') or [])[:3]:
+        # between two elements of the chain the file held something that is neither
+        acc.violation('file-content-not-in-chain',
+                      f'during write #{t["write"]} the output file held a content that is neither the previous nor the new '
+                      f'element of the chain: ' + ('no file' if t['size'] is None else f'{t["size"]} bytes {t["head"]!r}'), case)
     nt, classes = check_history(case, r, acc)
     if cut:
         classes.append('stopped-at-repeat')
